@@ -108,7 +108,7 @@ func MnemonicToSeed(words, passcode string) ([]byte, error) {
 
 	for _, w := range wl {
 		idx := sort.SearchStrings(English, w)
-		if English[idx] == w {
+		if idx < len(English) && English[idx] == w {
 			continue
 		}
 		return nil, ErrInvalidWordlist
